@@ -673,3 +673,69 @@ def kernel_interpolation(P, rep, rule="I1.kernel"):
                       witness="a segment whose length/angle differs between two adjacent sections (e.g. 0 in one, 200 km in the next)")
     rep.ok(rule, "%d reads of the per-section tables, all inside cur + f*(next - cur)" % n, F.loc, F.qn)
     rep.floor(rule, n, 12, "reads of per-section tables in the kernel")
+
+
+def nearest_segment_selection(P, rep, rule="K.nearest"):
+    """the running closest segment is selected on absolute distances"""
+    rep.rule(rule, "distance_point_from_curved_planes keeps the segment with the smallest |distance|: the store `distance = (only_positive ? "
+                   "|new| : new)` may make the running value negative, so the guard that admits a new candidate compares |new_distance| with "
+                   "|distance| (both sides absolute) and the candidate must lie within the segment: -tol <= along <= |segment length|")
+    F = P.func("WorldBuilder::Utilities::distance_point_from_curved_planes")
+    miss = astq.missing_anchors(P, F, ["distance", "new_distance", "new_along_plane_distance", "interpolated_segment_length"])
+    if miss:
+        rep.unknown(rule, "distance_point_from_curved_planes: the locals %s this rule is written over no longer exist (renamed?)" % miss)
+        return
+    dk = [x["r"] for x in F.walk() if x.get("k") == "VarDecl" and x.get("n") == "distance"]
+    nk = [x["r"] for x in F.walk() if x.get("k") == "VarDecl" and x.get("n") == "new_distance"]
+    if len(dk) != 1 or len(nk) < 1:
+        rep.unknown(rule, "declarations of distance / new_distance not unique")
+        return
+    dk = dk[0]
+    stores = [x for x in F.walk() if x.get("k") == "BinaryOperator" and x.get("op") == "=" and astq.is_ref_to(x["c"][0], dk)
+              and any(y.get("k") == "DeclRefExpr" and y.get("r") in nk for y in F.walk(x["c"][1]))]
+    if len(stores) != 1:
+        rep.unknown(rule, "%d stores `distance = f(new_distance)`" % len(stores))
+        return
+    st = stores[0]
+    signed = any(True for _ in [1]) and not (sc(st["c"][1]).get("k") == "CallExpr" and P.d(sc(st["c"][1]).get("callee")).get("qn") in ("std::fabs", "fabs", "std::abs"))
+    g = astq.enclosing(F, st, ("IfStmt",))
+    if g is None:
+        rep.violation(rule, "the running distance is overwritten unconditionally", F.nloc(st), F.qn, norm.render(P, st)[:120], "the last segment wins, not the nearest", key=rule + "|unguarded")
+        return
+    conj = []
+
+    def split(c):
+        c = sc(c)
+        if c.get("k") == "BinaryOperator" and c.get("op") == "&&":
+            split(c["c"][0]); split(c["c"][1])
+        else:
+            conj.append(c)
+    split(g["c"][0])
+
+    def is_abs_of(e, keys):
+        e = sc(e)
+        return e.get("k") == "CallExpr" and P.d(e.get("callee")).get("qn") in ("std::fabs", "fabs", "std::abs", "abs") and sc(e["c"][1]).get("k") == "DeclRefExpr" and sc(e["c"][1]).get("r") in keys
+    sel = [c for c in conj if c.get("k") == "BinaryOperator" and c.get("op") in ("<", "<=", ">", ">=")
+           and any(y.get("k") == "DeclRefExpr" and y.get("r") == dk for y in F.walk(c)) and any(y.get("k") == "DeclRefExpr" and y.get("r") in nk for y in F.walk(c))]
+    if len(sel) != 1:
+        rep.unknown(rule, "%d conjuncts relate new_distance and distance" % len(sel))
+        return
+    c = sel[0]
+    l, r, op = c["c"][0], c["c"][1], c["op"]
+    if op in (">", ">="):
+        l, r, op = r, l, {">": "<", ">=": "<="}[op]
+    ok = is_abs_of(l, nk) and (is_abs_of(r, [dk]) or not signed) and op == "<"
+    if ok:
+        rep.ok(rule, "candidate admitted iff |new_distance| < |distance|", F.nloc(c), F.qn)
+    else:
+        rep.violation(rule, "candidate admitted iff %s" % norm.render(P, c)[:80], F.nloc(c), F.qn, norm.render(P, c)[:140],
+                      "the running distance can be negative (signed distances are kept): compared without its absolute value a negative running "
+                      "distance can never be replaced by a nearer segment", key=rule + "|abs", witness="a slab that flattens with depth, point above the second segment")
+    # within the segment
+    ak = [x["r"] for x in F.walk() if x.get("k") == "VarDecl" and x.get("n") == "new_along_plane_distance"]
+    within = [norm.render(P, cc, nocast=True).replace(" ", "").replace("std::", "") for cc in conj if any(y.get("k") == "DeclRefExpr" and y.get("r") in ak for y in F.walk(cc))]
+    if len(within) == 2 and any(w.startswith("(new_along_plane_distance>=-") for w in within) and "(new_along_plane_distance<=fabs(interpolated_segment_length))" in within:
+        rep.ok(rule, "candidate lies within the segment: %s" % " && ".join(within), F.nloc(g), F.qn)
+    else:
+        rep.violation(rule, "the candidate's along-plane range is %s" % within, F.nloc(g), F.qn, "; ".join(within), "expected -tol <= along <= |segment length|",
+                      key=rule + "|within", witness="a point beside the end of a segment")
